@@ -9,14 +9,19 @@ hashing differently, is_running() turning True again.
 """
 import os
 
-from harness.props import c01
+from harness.props import c01, c02_extra
 
 PROP = "C02"
 DRIVER = os.path.join("Driver", "C02.lean")
 DRIVER_MODULES = ["PsutilModel.Model.C02Gen", "PsutilModel.Spec.C01", "PsutilModel.Model.C01Driver"]
 NEEDS_EXT = True
-TRUSTED = c01.TRUSTED[:4]
-ASSUMPTIONS = c01.ASSUMPTIONS
+TRUSTED = c01.TRUSTED[:4] + [
+    "C02 object universe: objects built by Process(pid) and by process_iter() are modelled; objects of a Process subclass and psutil.Popen objects over a listed PID go through the same `_init` and are exercised by the correspondence only (families x:classes / x:hashes: mixed-class pairs in ==, != and is_running()); a psutil.Popen whose child was already reaped gets `_ident = (pid, None)` and `_gone = True` through `_ignore_nsp` — such objects, and objects returned by parent()/children()/parents()/wait_procs(), are outside the model and outside the correspondence",
+    "C02 hash: the model's hash IS the identity (pid, create time); CPython's hash() of that tuple and the `_hash` memo are tied by the facts hashShape / identityStores (cfg_identity_shape) and by the stability oracle (hash right after construction = hash at the end of the history)",
+]
+ASSUMPTIONS = [
+    "the published boot time (btime line of /proc/stat) is never 0 WHILE create_time() tests the cached BOOT_TIME by truthiness (C01/C02 theorems carry `BtOK cfg.createNoneTest b`; the property is FALSE without it on the source as found: finding C02-boottime-zero, C02_btime0_counterexample; void once fixes/C02-boottime-zero.diff has landed: C02_any_boot_full_of_none_test)",
+] + c01.ASSUMPTIONS[1:]
 MANIFEST = {
     "level_text": "Machine-checked Lean 4 proof over the identity-machine model shared with C01 (Process._init/_get_ident/create_time/__eq__/__hash__/is_running + _pslinux boot_time/BOOT_TIME/create_time) and a simulated kernel whose published boot time may change: for ALL histories of spawn/exit/reap/PID-reuse/tick/clock-step events and interleaved psutil calls (boot_time(), process_iter(), create_time(), is_running(), signals, setters, object creation at any point) with btime != 0, `a == b` holds iff the two objects have the same PID and were built for the same process start (C02_eq_iff_same_incarnation), equal objects hash alike and the hash never changes (C02_hash_congr, C02_answers_stable), is_running() is True iff the object's own incarnation is still in the process table, zombie included (C02_isRunning_iff_listed), and once False it stays False (C02_isRunning_sticky); the ghost field the specification uses is the owner of the PID at construction (C02_ghost_meaning). The Process objects built and yielded by process_iter() are objects of the same histories (the model's process_iter keeps the pid->object cache and `_pids_reused`, builds a Process for every listed PID that is not cached exactly as Process(pid) does, appends it to the object list and returns the (pid, index) handles it yields), so all of the above quantifies over them and over pairs mixing both kinds; in addition a sweep never alters an existing object (C02_iter_keeps_objects), a yielded handle is a cache entry as it was or a fresh object built for the current owner of the PID (C02_iter_ghost_meaning) and always names an object of that PID (C02_iter_handles_valid); oneshot() entry/exit are explicit calls of the histories and change nothing (C02_oneshot_identity). The histories also contain permission changes (the kernel refusing a PID with EPERM/EACCES): a refused signal or setter raises AccessDenied and sets no sticky flag, so every answer above is unaffected. Outside the property's quantifier (characterisation, not a finding): when /proc/pid/stat cannot be opened (hidepid mounts, LSMs) Process._init keeps `_ident = (pid, None)`; the model transcribes this and is compared with the real code on such histories; proved for any state: two objects with unknown start are equal iff they have the same PID and never equal an object with a known start (C02_eq_unknown_start), is_running() of an object with unknown start is True iff the PID is listed and its current holder is unreadable too (C02_isRunning_unknown_start), Process(pid) then yields exactly that object without touching BOOT_TIME (C02_unknown_start_meaning); consequently the statements of C02_eq_iff_same_incarnation / C02_isRunning_iff_listed do not extend to histories with unreadable stat files (C02_unknown_start_counterexample, witnesses replayed on the real code). As an extra model-correspondence observable (outside the property's statement, no spec-level judgement) the status word of str(p)/repr(p) is transcribed as it is and compared with the implementation; about the transcription it is proved that 'terminated' shown implies the object's process is gone and that a listed incarnation's own state is shown (C02_status_terminated_sound, C02_status_listed), and characterised that the converse does not hold because __str__ deliberately has no side effects (C02_status_stale_counterexample). Tie: ast-extracted facts + differential run of real psutil.Process objects over a fake procfs.",
     "level_note": "Trusted: Lean kernel + {propext, Classical.choice, Quot.sound}; the translator; the correspondence harness; the simulated kernel/fake procfs; atomic calls; create times as exact integers (doubles in the implementation); hypotheses btime != 0 and /proc/pid/stat always readable (what happens otherwise is characterised, not claimed); OpenBSD/NetBSD zombie branch of __eq__ not modelled (Linux layer).",
@@ -27,10 +32,19 @@ MANIFEST = {
 
 def facts(snap, F):
     c01.all_facts(snap, F, skip=("windowCalls", "nativePidArgs"))     # C01-only obligations
+    c02_extra.facts(snap, F)                                          # __eq__ / __ne__ / __hash__ / identity stores
 
 
 def correspond(ctx, res):
     c01.correspond_for(ctx, res, "C02", DRIVER, 700, 30000)
+    lines = res.extra.get("driver_lines", 0)
+    res.extra["driver_lines"] = 0
+    c02_extra.correspond_extra(ctx, res, DRIVER, 480, 16000)
+    res.extra["driver_lines"] += lines
+    res.rule += ("; C02's own families on top (x:classes: objects of a Process subclass and psutil.Popen objects mixed with "
+                 "Process objects; x:globals: pids()/pid_exists()/wait_procs()/cpu_percent()/!=/set()/dict keys/== with foreign "
+                 "types between the calls; x:hashes: hash() right after construction and at the end; x:btime0: published boot "
+                 "time 0, judged by the specification — region of finding C02-boottime-zero)")
 
 
 def search(ctx, res, broken):
@@ -38,9 +52,13 @@ def search(ctx, res, broken):
 
 
 def shrink(ctx, d):
-    return c01.shrink_for(ctx, d, "C02", DRIVER)
+    return c02_extra.shrink(ctx, d, DRIVER)
 
 
 def replay(ctx, rp, res):
-    return c01.replay_for(ctx, rp, "C02", DRIVER)
+    return c02_extra.replay(ctx, rp, DRIVER)
+
+
+def check_finding(ctx, fnd):
+    return c02_extra.check_finding(ctx, fnd, DRIVER)
 
